@@ -21,6 +21,7 @@ struct ClassicFam {
     cfg.assign(static_cast<size_t>(nsk), k);
   }
   static int mixed_cfg(int cfg, int i) { static const int mul[4] = {1, 2, 4, 2}; return cfg * mul[i]; }
+  static const double* mixed_cuts() { static const double c[5] = {0.0, 0.4, 0.7, 0.9, 1.0}; return c; }
 };
 
 const char* property_id() { return "C08"; }
